@@ -54,6 +54,8 @@ pub enum Mode {
     Deadline,
     /// caller's context is already cancelled when the scope starts
     AlreadyCancelled,
+    /// like Plain, but the caller's context carries a deadline that is never reached
+    FarDeadline,
 }
 
 #[derive(Clone, Debug, PartialEq, Eq, Hash)]
@@ -65,7 +67,9 @@ pub struct Program {
 
 #[derive(Clone, Debug, PartialEq)]
 enum Ev {
-    ScopeStart { scope: u32 },
+    ScopeStart { scope: u32, parent: u32 },
+    /// the harness cancelled the caller's context (or let its deadline pass)
+    CallerCancelled,
     Spawn { scope: u32, task: u32, main: bool },
     Start { task: u32 },
     SawCancel { task: u32 },
@@ -154,7 +158,7 @@ fn run_node<'env>(ctx: &'env ctx::Ctx, s: &'env scope::Scope<'env, u32>, env: &'
             Pre::None => {}
             Pre::Spawn(child) => spawn_node(ctx, s, env, scope_id, child),
             Pre::Nested(child, root_body) => {
-                let r = CatchUnwind(Box::pin(run_scope(ctx, env, std::slice::from_ref(&**child), *root_body))).await;
+                let r = CatchUnwind(Box::pin(run_scope(ctx, env, scope_id, std::slice::from_ref(&**child), *root_body))).await;
                 match r {
                     Err(_) => {
                         // the nested scope re-raised a panic: this task panics too
@@ -174,10 +178,10 @@ fn run_node<'env>(ctx: &'env ctx::Ctx, s: &'env scope::Scope<'env, u32>, env: &'
 }
 
 /// Runs one real scope with the given children and root body. Panics propagate.
-fn run_scope<'a>(ctx: &'a ctx::Ctx, env: &'a Env, children: &'a [Node], root: Body) -> BoxFut<'a, Result<(), u32>> {
+fn run_scope<'a>(ctx: &'a ctx::Ctx, env: &'a Env, parent: u32, children: &'a [Node], root: Body) -> BoxFut<'a, Result<(), u32>> {
     Box::pin(async move {
         let scope_id = env.scope_id();
-        env.ev(Ev::ScopeStart { scope: scope_id });
+        env.ev(Ev::ScopeStart { scope: scope_id, parent });
         let root_task = env.task_id();
         env.ev(Ev::Spawn { scope: scope_id, task: root_task, main: true });
         let res = scope::run!(ctx, |ctx, s| async move {
@@ -263,6 +267,32 @@ fn oracle(p: &Program, log: &[Ev], fin: &Final, cancel_was_forced: bool) -> Opti
             }
         }
     }
+    // (4) no spurious cancellation: a task observes its context cancelled only when a task of its scope or
+    // of an enclosing scope has failed, all main tasks of its scope or of an enclosing scope have ended,
+    // or the caller's context was cancelled / its deadline passed
+    let parent_of: std::collections::BTreeMap<u32, u32> = log.iter().filter_map(|e| if let Ev::ScopeStart { scope, parent } = e { Some((*scope, *parent)) } else { None }).collect();
+    let scope_of_task: std::collections::BTreeMap<u32, u32> = log.iter().filter_map(|e| if let Ev::Spawn { scope, task, .. } = e { Some((*task, *scope)) } else { None }).collect();
+    for (i, e) in log.iter().enumerate() {
+        let Ev::SawCancel { task } = e else { continue };
+        let prefix = &log[..i];
+        if prefix.iter().any(|e| matches!(e, Ev::CallerCancelled)) {
+            continue;
+        }
+        let mut sc = *scope_of_task.get(task).unwrap_or(&0);
+        let mut justified = false;
+        while sc != 0 {
+            let failed = prefix.iter().any(|e| matches!(e, Ev::End { scope, outcome, .. } if *scope == sc && *outcome != "ok"));
+            // cancellation is sticky: it is enough that all main tasks spawned so far had ended at some earlier moment
+            if failed || (0..=prefix.len()).any(|j| mains_done(&prefix[..j], sc)) {
+                justified = true;
+                break;
+            }
+            sc = *parent_of.get(&sc).unwrap_or(&0);
+        }
+        if !justified {
+            return Some(format!("task {task} observed its scope's context cancelled although no task of its scope (or of an enclosing scope) had failed, main tasks were still running and the caller's context was active"));
+        }
+    }
     // (3) lost cancellation is detected at run time: the harness only cancels the caller when no
     // cancellation is due; an idle system with a due cancellation is reported as `Stuck`.
     let _ = (p, cancel_was_forced);
@@ -294,20 +324,24 @@ fn run_program(ch: &Ch, p: &Program) -> ExecResult {
                 Ok(())
             });
             if p.mode == Mode::AlreadyCancelled {
+                env.ev(Ev::CallerCancelled);
                 s.cancel();
             }
             let deadline_ctx;
             let caller: &ctx::Ctx = if p.mode == Mode::Deadline {
                 deadline_ctx = ctx.with_timeout(time::Duration::seconds(10));
                 &deadline_ctx
+            } else if p.mode == Mode::FarDeadline {
+                deadline_ctx = ctx.with_timeout(time::Duration::seconds(1_000_000));
+                &deadline_ctx
             } else {
                 ctx
             };
-            let mut fut = CatchUnwind(Box::pin(run_scope(caller, env, &p.children, p.root)));
+            let mut fut = CatchUnwind(Box::pin(run_scope(caller, env, 0, &p.children, p.root)));
             let mut forced = false;
             let mut idles = 0;
             let mut seen = idle.generation();
-            let fin = loop {
+            let mut fin = loop {
                 let step = std::future::poll_fn(|cx| {
                     if let Poll::Ready(r) = Pin::new(&mut fut).poll(cx) {
                         return Poll::Ready(Some(r));
@@ -329,15 +363,16 @@ fn run_program(ch: &Ch, p: &Program) -> ExecResult {
                         idles += 1;
                         let lg = env.log.lock().unwrap().clone();
                         let failure = lg.iter().any(|e| matches!(e, Ev::End { outcome, .. } if *outcome != "ok"));
-                        let scopes: Vec<u32> = lg.iter().filter_map(|e| if let Ev::ScopeStart { scope } = e { Some(*scope) } else { None }).collect();
+                        let scopes: Vec<u32> = lg.iter().filter_map(|e| if let Ev::ScopeStart { scope, .. } = e { Some(*scope) } else { None }).collect();
                         let live: Vec<u32> = scopes.into_iter().filter(|s| !lg.iter().any(|e| matches!(e, Ev::ScopeEnd { scope, .. } if scope == s))).collect();
                         let due = failure || live.iter().any(|s| mains_done(&lg, *s));
                         if idles == 1 && !due {
+                            env.ev(Ev::CallerCancelled);
                             match p.mode {
                                 Mode::Deadline => clock.advance(time::Duration::seconds(11)),
                                 _ => cancel_now.notify_one(),
                             }
-                            forced = p.mode == Mode::Plain;
+                            forced = p.mode == Mode::Plain || p.mode == Mode::FarDeadline;
                             continue;
                         }
                         if idles == 1 && due {
@@ -349,6 +384,12 @@ fn run_program(ch: &Ch, p: &Program) -> ExecResult {
                     }
                 }
             };
+            // the scope's own cancellation (failure, completion) is the scope's business: the caller's
+            // context is cancelled only by the caller
+            let caller_cancelled_by_harness = env.log.lock().unwrap().iter().any(|e| matches!(e, Ev::CallerCancelled));
+            if matches!(fin, Final::Returned(_) | Final::Panicked) && !caller_cancelled_by_harness && !caller.is_active() {
+                fin = Final::Stuck("the caller's context is cancelled after scope::run! returned although nobody cancelled it and its deadline has not passed: the scope cancelled its caller's context");
+            }
             Ok((fin, forced))
         })
         .await;
@@ -377,7 +418,7 @@ fn programs(thorough: bool) -> Vec<Program> {
         }
     }
     let mut out = vec![];
-    let modes: &[Mode] = &[Mode::Plain, Mode::CallerCancel, Mode::Deadline, Mode::AlreadyCancelled];
+    let modes: &[Mode] = &[Mode::Plain, Mode::CallerCancel, Mode::Deadline, Mode::AlreadyCancelled, Mode::FarDeadline];
     for &mode in modes {
         for root in BODIES {
             // zero / one / two simple children
@@ -391,7 +432,7 @@ fn programs(thorough: bool) -> Vec<Program> {
                 }
             }
             // one complex child (+ one simple child)
-            if mode == Mode::Plain || mode == Mode::CallerCancel || thorough {
+            if mode == Mode::Plain || mode == Mode::CallerCancel || mode == Mode::FarDeadline || thorough {
                 for c in &complex {
                     out.push(Program { children: vec![c.clone()], root, mode });
                     if thorough || (mode == Mode::Plain && matches!(root, Body::Ok | Body::WaitOk)) {
